@@ -314,6 +314,27 @@ def k_parameters(f, rng):
     return e
 
 
+@kind("character-xml-forbids-in-text", 3)
+def k_forbidden_char(f, rng):
+    """A character that XML 1.0 forbids (vertical tab, form feed, other C0 controls, U+FFFE/U+FFFF) in a text cell, with or without a ${reference}
+    beside it (text with a reference is parsed as XML content on its way out)."""
+    c = pick(rng, ["\x01", "\x0b", "\x0c", "\x1f", "\ufffe", "\x08"])
+    vis = [r for r, a in f.walk() if is_visible_q(r)]
+    if not vis:
+        return None
+    r = pick(rng, vis)
+    others = [x.name for x in vis if x is not r and x.name]
+    ref = (" ${%s}" % pick(rng, others)) if others and rng.random() < 0.6 else ""
+    hs = [h for h in r.cells if h.split(":")[0] in ("label", "hint")]
+    if any(":" in h for h in hs):
+        hs = [h for h in hs if ":" in h]  # an unsuffixed cell may be overridden by the default language's column (dead text)
+    col = pick(rng, hs or ["label"])
+    r.cells[col] = f"bad{c}char{ref}"
+    e = Exp(r"not allowed in XML|[Ii]nvalid (text|character)", "none")
+    e.column = f"{col.split(':')[0]}/{'with-ref' if ref else 'plain'}"
+    return e
+
+
 @kind("audit-named", 1)
 def k_audit_named(f, rng):
     for r, _ in list(f.walk()):
